@@ -176,7 +176,7 @@ def run(rep) -> None:
     try:
         cases = pipe.run_universe(rep, 3, d)
         schema_census(rep, cases)
-        rs = ops.enumerate_ops(1 if quick else 2, 1 if quick else 2, d)
+        rs = ops.enumerate_ops(1 if quick else 2, 2, d)
         ocases = []
         for r in rs:
             rep.tlc(r)
@@ -193,12 +193,20 @@ def run(rep) -> None:
         for c in cases:
             strata.setdefault(pipe.sig(c["doc"]), []).append(c)
         sdocs = [rnd.choice(v) for _, v in sorted(strata.items())][: (120 if quick else 1200)]
-        ostrata: dict = {}
-        for c in ocases:
-            ostrata.setdefault((c["op"]["body"], tuple(p["how"] for p in c["op"]["ps"]), tuple(r["how"] for r in c["op"]["rs"])), []).append(c)
-        keys = sorted(ostrata)
-        rnd.shuffle(keys)
-        sops = [rnd.choice(ostrata[k]) for k in keys[: (160 if quick else 1500)]]
+        # rendering sample: every response combination, every body kind, every parameter combination at least once on a
+        # generated operation (one factor at a time), then random fill
+        def pick(keyfn):
+            seen: dict = {}
+            pool = list(ocases)
+            rnd.shuffle(pool)
+            for c in pool:
+                if c["result"] == "ok":
+                    seen.setdefault(keyfn(c), c)
+            return [seen[k] for k in sorted(seen)]
+        sops = pick(lambda c: tuple(r["key"] for r in c["op"]["rs"]))
+        sops += pick(lambda c: c["op"]["body"])
+        sops += pick(lambda c: (tuple(p["how"] + p["loc"] for p in c["op"]["ps"]), tuple(p["how"] for p in c["op"]["pips"])))
+        sops += rnd.sample(ocases, 40 if quick else 1500)
         rendered_census(rep, sdocs, sops, d)
         collisions(rep)
         docs = [(pipe.concretize(c["doc"]), c["doc"]) for c in rnd.sample(cases, 400 if quick else 4000)]
